@@ -224,9 +224,11 @@ class Skeleton(Stream):
         return None
 
 
+from cli_streams import CliPrefix  # noqa: E402  (the observation point "phil --print_prefix ...")
+
 SPEC = {
     "clusters": ["Parse"],
-    "streams": [Filters, Skeleton],
+    "streams": [Filters, Skeleton, CliPrefix],
     "rule": "random trees with expert levels (unset, 0..4) on any mixture of scopes/definitions incl. dotted-name scopes and disabled objects x "
             "expert_level in {None,-1,0..5} x attributes_level 0..3 x prefixes {'', blanks, '# ', '>>', tab} x widths; freephil's text compared byte "
             "for byte with the model's, filtered text re-parsed on both sides; distinct = distinct case; non-trivial = at least one object",
